@@ -74,10 +74,16 @@ def run(case):
     def parse_steps(objs):
         out = []
         for o in objs:
+            if not isinstance(o, dict):
+                continue
             for sm in o.values():
+                if not isinstance(sm, dict):
+                    continue
                 for sc in sm.values():
+                    if not isinstance(sc, dict):
+                        continue
                     for eq, series in sc.items():
-                        if eq == "s":
+                        if eq == "s" and isinstance(series, dict):
                             out.extend(float(t) for t in series.keys())
         return out
     for n, op in enumerate(case):
@@ -170,7 +176,7 @@ def run(case):
         return "a simulation time was produced twice: %r" % (times,)
     return None
 
-case = [('stream_all',), ('steps', 1), ('stream_finish',), ('step',), ('stream_open', 1), ('stream_finish',)]
+case = [('stream_open', 3), ('stream_close',), ('steps', 2)]
 bad = run(case)
 print("script:", case)
 print("FAIL: " + bad if bad else "PASS")
